@@ -23,7 +23,7 @@ Fresh ==
    devs |-> <<Dev("null"), Dev("kbd"), Dev("disp")>>, ports |-> (65024 :> 1) @@ (65026 :> 1) @@ (65028 :> 2) @@ (65030 :> 2),
    ireg |-> (65532 :> "PSR") @@ (65534 :> "MCR"),
    flags |-> [strict |-> FALSE, real |-> FALSE, dbg |-> FALSE, ignp |-> FALSE], alloca |-> <<>>,
-   srdefs |-> <<>>, base |-> 1, bps |-> {}, pause |-> "Unsuccessful", devn |-> {}, drift |-> FALSE,
+   srdefs |-> <<>>, base |-> 1, bps |-> {}, pause |-> "Unsuccessful", devn |-> {}, drift |-> FALSE, nrej |-> 0,
    mark |-> [reg |-> <<>>, psr |-> 0, pc |-> 0, kbd |-> <<>>, disp |-> <<>>, memw |-> <<>>, ssp |-> NoW]]
 
 \* the call in the vocabulary of DevOp (the logged result is not needed to compute the next state)
